@@ -1663,3 +1663,29 @@ func (g *IG) inlinedCalls() []*ssa.Call {
 	sort.Slice(out, func(i, j int) bool { return g.Idx[out[i]] < g.Idx[out[j]] })
 	return out
 }
+
+// sameBlockDef: v is a load of a local cell (a named result spilled because of a defer, a captured variable); returns the
+// value of the last store to that cell preceding the load in the same basic block, or v itself.
+func sameBlockDef(v ssa.Value) ssa.Value {
+	u, ok := v.(*ssa.UnOp)
+	if !ok || u.Op != token.MUL {
+		return v
+	}
+	al, ok := u.X.(*ssa.Alloc)
+	if !ok {
+		return v
+	}
+	instrs := u.Block().Instrs
+	at := -1
+	for i, in := range instrs {
+		if in == ssa.Instruction(u) {
+			at = i
+		}
+	}
+	for i := at - 1; i >= 0; i-- {
+		if st, isSt := instrs[i].(*ssa.Store); isSt && st.Addr == ssa.Value(al) {
+			return st.Val
+		}
+	}
+	return v
+}
